@@ -5,7 +5,7 @@ from common import *
 import check_C08
 
 if __name__ == "__main__":
-    main("C09", [check_C08.Bio()], gen_targets=["delta", "initscore"],
+    main("C09", [check_C08.Bio()], gen_targets=["delta", "initscore", "biokernel"],
          level_note="see MANIFEST",
          rule="witnesses of F3/F4, random and layered datasets up to 7 elements with 7 starting configurations (none, BioCo, Borda, Copeland, "
               "PickAPerm, two and three starters) and both values of return_at_most_one_ranking; the departure rankings are recomputed by "
